@@ -1,5 +1,5 @@
 From Coq Require Import ZArith List Bool.
-From RV Require Import Base.Wire Base.Text Gen.Registry Tool.Registry Tool.Ini.
+From RV Require Import Base.Wire Base.Text Gen.Registry Tool.Registry Tool.Ini Tool.NearMiss.
 Import ListNotations.
 Open Scope Z_scope.
 
@@ -26,7 +26,19 @@ Definition wsections (o : option (list (text * list (text * text)))) : wv :=
    case 1: (1 port platform board (lib ...))     -> (0 ini_text sections) | (1 kind) for an invalid pair
    case 2: (2 (lib ...))                         -> (0 lib_section_text)
    case 3: (3 board)                             -> (0 env_name)
-   case 4: (4 ini_text)                          -> (0 sections) | (1 0) when the read raises *)
+   case 4: (4 ini_text)                          -> (0 sections) | (1 0) when the read raises
+   case 5: (5 code board)                        -> (0 near_miss (twin ...)) under normaliser [code]
+   case 6: (6 platform board)                    -> (0 v v0 v1 v2 v3): verdict of validate and of the four
+                                                    keyed variants (0 accepted, 1/2/3 the error kind) *)
+Definition verdict (o : option verr) : wv :=
+  match o with None => WI 0 | Some e => WI (verr_code e) end.
+
+(* the four keyed indices, built once (by definition [keyed_index k board_to_platform]) *)
+Definition idx_env := keyed_index norm_env board_to_platform.
+Definition idx_lower := keyed_index norm_lower board_to_platform.
+Definition idx_strip := keyed_index norm_strip board_to_platform.
+Definition idx_squash := keyed_index norm_squash board_to_platform.
+
 Definition run (v : wv) : wv :=
   match v with
   | WL [WI 0; p; b] =>
@@ -61,6 +73,21 @@ Definition run (v : wv) : wv :=
                   | None => werr 0
                   end
       | None => wbad
+      end
+  | WL [WI 5; WI c; b] =>
+      match un_text b with
+      | Some bd => wok [wbool (near_miss (normaliser c) bd); WL (map wtext (twins (normaliser c) bd))]
+      | None => wbad
+      end
+  | WL [WI 6; p; b] =>
+      match un_text p, un_text b with
+      | Some pl, Some bd =>
+          wok [verdict (validate pl bd);
+               verdict (validate_keyed_with norm_env idx_env platforms pl bd);
+               verdict (validate_keyed_with norm_lower idx_lower platforms pl bd);
+               verdict (validate_keyed_with norm_strip idx_strip platforms pl bd);
+               verdict (validate_keyed_with norm_squash idx_squash platforms pl bd)]
+      | _, _ => wbad
       end
   | _ => wbad
   end.
